@@ -395,10 +395,15 @@ func (e *expoHistogram[N]) delta(dest *metricdata.Aggregation) int {
 
 		if !e.noSum {
 			hDPts[i].Sum = val.sum
+		} else {
+			// A reused data point may hold another stream\'s value.
+			hDPts[i].Sum = 0
 		}
 		if !e.noMinMax {
 			hDPts[i].Min = metricdata.NewExtrema(val.min)
 			hDPts[i].Max = metricdata.NewExtrema(val.max)
+		} else {
+			hDPts[i].Min, hDPts[i].Max = metricdata.Extrema[N]{}, metricdata.Extrema[N]{}
 		}
 
 		collectExemplars(&hDPts[i].Exemplars, val.res.Collect)
@@ -456,10 +461,15 @@ func (e *expoHistogram[N]) cumulative(dest *metricdata.Aggregation) int {
 
 		if !e.noSum {
 			hDPts[i].Sum = val.sum
+		} else {
+			// A reused data point may hold another stream\'s value.
+			hDPts[i].Sum = 0
 		}
 		if !e.noMinMax {
 			hDPts[i].Min = metricdata.NewExtrema(val.min)
 			hDPts[i].Max = metricdata.NewExtrema(val.max)
+		} else {
+			hDPts[i].Min, hDPts[i].Max = metricdata.Extrema[N]{}, metricdata.Extrema[N]{}
 		}
 
 		collectExemplars(&hDPts[i].Exemplars, val.res.Collect)
